@@ -37,9 +37,14 @@ def sample_of(sc):
 
 
 def trace_check(prop, tier, seed, scenarios, mcs, level_note_extra=None, run_timeout=180, trace_level="full",
-                extra_judge=None, nontrivial=None, max_steps=None):
+                extra_judge=None, nontrivial=None, max_steps=None, pairwise=True):
     t0 = time.time()
     mc = run_mc_list(mcs, tier) if mcs else {"states": 0, "distinct": 0, "instances": []}
+    # every trace check also runs its share of the pairwise covering array over the configuration dimensions (scenlib.pairwise_cases): one
+    # eighth per property in the quick tier (the eighths of the trace-based checks together cover the array), all of it in the thorough tier
+    import scenlib as _L
+    if pairwise and max_steps is None:
+        scenarios = list(scenarios) + (_L.pairwise_cases(seed) if tier == "thorough" else _L.pairwise_cases(seed, part=int(prop[1:]), parts=8))
     docs = C.run_traced(scenarios, level=trace_level, timeout=run_timeout, max_steps=max_steps)
     herr = [d for d in docs if d["outcome"]["status"] == "harness_error"]
     if herr:
